@@ -106,7 +106,7 @@ def run_checks(idn, props, repo_dir, env_extra):
         cls = [l.strip() for l in lines if "failing class" in l or l.strip().startswith("violation:")]
         meta["runs"][p] = {"exit": rc, "violation_lines": viol[:3], "classes": cls[:3], "tail": lines[-1] if lines else "",
                            "seed": env["VERIF_SEED"], "caught": rc == 1 and bool(viol),
-                           "found_input": rc == 1 and bool(viol) and not any("no-failing-input-found" in v for v in viol)}
+                           "found_input": rc == 1 and any("no-failing-input-found" not in v for v in viol)}
         print(idn, p, "exit", rc, (viol or lines[-1:])[0] if (viol or lines) else "")
     save(idn, meta)
 
